@@ -343,12 +343,26 @@ func parseContracts(file string, pkgPath string) ([]*Contract, error) {
 				}
 			}
 			loop.CaseDims = append(loop.CaseDims, dim)
-		case "hint":
-			// trigger seeds for the fold split axioms: `hint e1; e2; ...`
+		case "hint", "split":
+			// instantiation seeds for the fold split axioms: `split lo, mid, hi; ...` says F(lo,hi) = F(lo,mid) . F(mid,hi)
+			// is to be used; `hint e` seeds a one-position unfolding only.
 			for _, part := range splitTop(rest, ';') {
 				part = strings.TrimSpace(part)
 				if part == "" {
 					continue
+				}
+				if kw == "split" {
+					part = "fsplit(" + part + ")"
+				}
+				if t, cond, ok := strings.Cut(part, " when "); ok {
+					// `hint TERM when COND`: the guard travels as a clause of its own just before the hint
+					wc := &Clause{Kind: "when", Text: strings.TrimSpace(cond), Line: ln + 1}
+					if loop != nil {
+						loop.Hints = append(loop.Hints, wc)
+					} else {
+						cur.Hints = append(cur.Hints, wc)
+					}
+					part = strings.TrimSpace(t)
 				}
 				cl := &Clause{Kind: "hint", Text: part, Line: ln + 1}
 				if loop != nil {
